@@ -112,6 +112,12 @@ func (t *Timer) Scheduled() bool {
 }
 
 func (t *Timer) Cancel() error {
+	if t.state == stateClosed {
+		// Nothing to cancel, and a closed timer must stay closed: its descriptor is gone and its number may already
+		// belong to something else.
+		return nil
+	}
+
 	err := t.it.Unset()
 	if err == nil {
 		t.cancelled = true
